@@ -5,7 +5,7 @@
 (* invariant Emit prints job and answer for the harness.                     *)
 (*                                                                           *)
 (* PARAM_FILE: {"max_outer": 512, "extra_outers": [..], "nmax": 64,          *)
-(*              "lmax": 4, "lemma_outer": 8, "lemma_n": 10}                  *)
+(*              "lmax": 4, "lemma_outer": 7, "lemma_n": 8}                   *)
 EXTENDS TileShapes, TLC, Json, IOUtils
 
 CONSTANT Jobs
@@ -20,18 +20,23 @@ SeqToSet(q) == {q[i] : i \in 1..Len(q)}
 
 Outers == (1..Params.max_outer) \cup SeqToSet(Params.extra_outers)
 
-\* ---- job sets
-JobsPerfect == {[kind |-> "perfect", outer |-> o] : o \in Outers}
+\* ---- job sets.  A job is [kind, a, b, pat]:
+\*   "perfect":          a = outer size                      -> {<<inner, PerfectCands(inner, a)>> : inner | a}
+\*   "chains":           a = n, pat = imperfection pattern   -> Chains(a, pat)
+\*   "lemma_imperfect":  a = outer, b = inner                -> TRUE iff the fast predicates equal the definitions
+\*   "lemma_chains":     a = n, pat                          -> TRUE iff ChainSet agrees with its independent statements
+Job(k, x, y, p) == [kind |-> k, a |-> x, b |-> y, pat |-> p]
+
+JobsPerfect == {Job("perfect", o, 0, <<>>) : o \in Outers}
 
 Patterns(lmax) == UNION {[1..k -> BOOLEAN] : k \in 0..lmax}
-JobsChains == {[kind |-> "chains", n |-> n, pat |-> p] : n \in 1..Params.nmax, p \in Patterns(Params.lmax)}
+JobsChains == {Job("chains", n, 0, p) : n \in 1..Params.nmax, p \in Patterns(Params.lmax)}
 
-\* lemma jobs (small, fixed bounds)
-JobsLemmaImperfect ==
-  {[kind |-> "lemma_imperfect", outer |-> o, inner |-> i] : o \in 1..Params.lemma_outer, i \in 1..Params.lemma_outer}
-JobsLemmaChains ==
-  {[kind |-> "lemma_chains", n |-> n, pat |-> p] : n \in 1..Params.lemma_n, p \in Patterns(4)}
-JobsLemma == JobsLemmaImperfect \cup JobsLemmaChains
+JobsLemma ==
+  {Job("lemma_imperfect", o, i, <<>>) : o \in 1..Params.lemma_outer, i \in 1..Params.lemma_outer}
+  \cup {Job("lemma_chains", n, 0, p) : n \in 1..Params.lemma_n, p \in Patterns(4)}
+
+JobsAll == JobsLemma \cup JobsPerfect \cup JobsChains
 
 AllPerfect(p) == \A i \in 1..Len(p) : ~p[i]
 
@@ -47,19 +52,19 @@ LemmaChains(n, p) ==
   /\ ChainSet(n, p) = ChainSetByFilter(n, p)
   /\ (AllPerfect(p) /\ Len(p) >= 1) => Chains(n, p) = Cardinality(OrderedFactorisations(n, Len(p)))
 
+IsLemma(j) == j.kind \in {"lemma_imperfect", "lemma_chains"}
+
 Answer(j) ==
-  CASE j.kind = "perfect" ->
-         \* one pair <<inner, candidate set>> per inner size dividing the outer size
-         {<<i, PerfectCands(i, j.outer)>> : i \in Divisors(j.outer)}
-    [] j.kind = "chains" -> Chains(j.n, j.pat)
-    [] j.kind = "lemma_imperfect" -> LemmaImperfect(j.outer, j.inner)
-    [] j.kind = "lemma_chains" -> LemmaChains(j.n, j.pat)
+  CASE j.kind = "perfect" -> {<<i, PerfectCands(i, j.a)>> : i \in Divisors(j.a)}
+    [] j.kind = "chains" -> Chains(j.a, j.pat)
+    [] j.kind = "lemma_imperfect" -> LemmaImperfect(j.a, j.b)
+    [] j.kind = "lemma_chains" -> LemmaChains(j.a, j.pat)
 
 Init == job \in Jobs /\ out = <<>>
 Compute == Len(out) = 0 /\ out' = <<Answer(job)>> /\ UNCHANGED job
 Spec == Init /\ [][Compute]_vars
 
-Emit == IF Len(out) = 0 THEN TRUE ELSE PrintT(ToJson([job |-> job, out |-> out[1]]))
+Emit == IF Len(out) = 0 \/ IsLemma(job) THEN TRUE ELSE PrintT(ToJson([job |-> job, out |-> out[1]]))
 
-LemmaHolds == Len(out) = 1 => out[1] = TRUE
+LemmaHolds == (Len(out) = 1 /\ IsLemma(job)) => out[1] = TRUE
 =============================================================================
